@@ -226,6 +226,21 @@ def unaryRule (ueq : UnitV K → UnitV K → Bool) (pre : Prefixes K) (t : Lut K
   -- binary rule functions called with one argument, and the refusing rules
   | .multiply | .divide | .power | .arctan2 | .bitop | .invert => .error .TypeError
 
+/-- a rule function called with two units: `unit_operator(u0, u1)` — `(mul, unit or None)` -/
+def binaryRule (ueq : UnitV K → UnitV K → Bool) (pre : Prefixes K) (t : Lut K) (r : Rule) (u0 u1 : UnitV K) :
+    Except Err (K × Option (UnitV K)) :=
+  match r with
+  | .preserve => .ok (1, some (preserveUnits u0 (some u1)).2)
+  | .difference => (differenceUnits ueq pre t u0 (some u1)).map fun p => (p.1, some p.2)
+  | .comparison | .withoutUnit => .ok (1, none)
+  | .arctan2 => .ok (1, some UnitV.dimensionless)
+  | .passthrough => .ok (1, some u0)
+  | .multiply => (multiplyUnits pre t u0 u1).map fun p => (p.1, some p.2)
+  | .divide => (divideUnits pre t u0 u1).map fun p => (p.1, some p.2)
+  -- `_power_unit(unit, power)` takes a number, not a unit (the dispatcher passes the exponent);
+  -- unary rule functions called with two arguments; the refusing rules
+  | .power | .sqrt | .cbrt | .square | .reciprocal | .bitop | .invert => .error .TypeError
+
 end rules
 
 /-! ### the value path of `__array_ufunc__` -/
@@ -270,11 +285,11 @@ variable {K : Type} [Add K] [Sub K] [Mul K] [Div K] [OfNat K 1] [OfNat K 0] [RPo
 /-- the block after the kernel call for `_multiply_units` / `_divide_units`: a dimensionless
     result whose scale is not 1 is multiplied into the numbers when the operands have the
     same non-trivial dimension; Celsius/Fahrenheit operands are refused -/
-def postMulBlock (u0 u1 : UnitV K) (m : K) (unit : UnitV K) : Except Err (Out K) :=
+def postMulBlock (u0 u1 : UnitV K) (conv m : K) (unit : UnitV K) : Except Err (Out K) :=
   let o : Out K :=
     if unit.isDimensionless && unit.scale != 1 && !u0.isDimensionless && u0.dim == u1.dim then
-      ⟨some UnitV.dimensionless, 1, m, unit.scale, none⟩
-    else ⟨some unit, 1, m, 1, none⟩
+      ⟨some UnitV.dimensionless, conv, m, unit.scale, none⟩
+    else ⟨some unit, conv, m, 1, none⟩
   if (u0.offset != 0 && isTemperature u0) || (u1.offset != 0 && isTemperature u1) then
     .error .InvalidUnitOperation
   else .ok o
@@ -334,30 +349,22 @@ def dispatchBinary (ueq : UnitV K → UnitV K → Bool) (pre : Prefixes K) (t : 
         | .error e => .error e
         | .ok (_, _, _, some b) => .ok ⟨none, 1, 1, 1, some b⟩
         | .ok (v0, v1, conv, none) =>
-          match rule with
-          | .preserve => .ok ⟨some (preserveUnits v0 (some v1)).2, conv, 1, 1, none⟩
-          | .difference =>
-            (differenceUnits ueq pre t v0 (some v1)).map fun p => ⟨some p.2, conv, p.1, 1, none⟩
-          | .comparison | .withoutUnit => .ok ⟨none, conv, 1, 1, none⟩
-          | .arctan2 => .ok ⟨some UnitV.dimensionless, conv, 1, 1, none⟩
-          | .passthrough => .ok ⟨some v0, conv, 1, 1, none⟩
-          | .multiply =>
-            match multiplyUnits pre t v0 v1 with
-            | .error e => .error e
-            | .ok (m, unit) => if rule.postMul then postMulBlock v0 v1 m unit else .ok ⟨some unit, 1, m, 1, none⟩
-          | .divide =>
-            match divideUnits pre t v0 v1 with
-            | .error e => .error e
-            | .ok (m, unit) => if rule.postMul then postMulBlock v0 v1 m unit else .ok ⟨some unit, 1, m, 1, none⟩
-          -- unary rule functions called with two arguments, and the refusing rules
-          | .power | .sqrt | .cbrt | .square | .reciprocal | .bitop | .invert => .error .TypeError
+          -- `mul, unit = unit_operator(u0, u1)`, then the kernel, then the post-multiplication block
+          match binaryRule ueq pre t rule v0 v1 with
+          | .error e => .error e
+          | .ok (m, none) => .ok ⟨none, conv, m, 1, none⟩
+          | .ok (m, some unit) =>
+            if rule.postMul then postMulBlock v0 v1 conv m unit else .ok ⟨some unit, conv, m, 1, none⟩
 
 /-- `POWER_MAPPING[ufunc](n)` as an affine map `a*n + b` fitted to the regenerated samples at
     `n = 0, 1` (the table obligation `power_mapping_is_affine` checks all samples) -/
-def powerMap (ufunc : String) (n : Nat) : Option Int :=
+def powerCoeffs (ufunc : String) : Option (Int × Int) :=
   match Generated.C04.powerMapping.lookup ufunc with
-  | some ((0, b) :: (1, ab) :: _) => some ((ab - b) * n + b)
+  | some ((0, b) :: (1, ab) :: _) => some (ab - b, b)
   | _ => none
+
+def powerMap (ufunc : String) (n : Nat) : Option Int :=
+  (powerCoeffs ufunc).map fun c => c.1 * n + c.2
 
 /-- the unary branch (one input; also `reduce` / `accumulate` of binary ufuncs): the argument
     the kernel receives and `(mul, unit)`.  `n` is `inp.size` (or `inp.shape[axis]`). -/
